@@ -89,6 +89,32 @@ def shrink(tag, failing, oracle, rounds=40):
     return cur
 
 
+def excusable(case, a, b):
+    """Is the disagreement between a crashed/faulted implementation run and the model's run of the
+    same case explained by the two sources of call-count nondeterminism alone?  True only if the
+    normalised traces differ and every difference is (i) a crash cut falling at another call
+    because of an optional Chtimes: one normalised trace is a prefix of the other; (ii) a crash
+    inside Rollback's first loop (a Go map range): both sides issued the same number of base
+    Lstat calls and nothing else; (iii) a fault aimed at the n-th Chtimes of a path."""
+    found = False
+    for i in sorted(set(a["T"]) | set(b["T"])):
+        op = case.ops[i] if i < len(case.ops) else None
+        ta, tb = t2.norm_trace(op, a["T"].get(i, [])), t2.norm_trace(op, b["T"].get(i, []))
+        if ta == tb:
+            continue
+        found = True
+        if case.crash >= 0:
+            if op and op[0] == "rollback" and len(ta) == len(tb) and all(t.startswith("base lstat ") for t in ta + tb):
+                continue
+            n = min(len(ta), len(tb))
+            if ta[:n] == tb[:n]:
+                continue
+        if case.faults and all(f[1] == "chtimes" for f in case.faults):
+            continue
+        return False
+    return found
+
+
 def run_stream(pid, name, cases, model_ok, level, oracle=None, desc="", nontrivial=None, triggers=None, do_shrink=True, post=None, t4_sample=0):
     impl, mod = t2.run_both("%s.%s" % (pid, name), cases, model=model_ok)
     res = {"name": name, "n": len(cases), "mismatch": [], "oracle": [], "nontrivial": 0, "desc": desc, "exhaustive": False}
@@ -119,10 +145,11 @@ def run_stream(pid, name, cases, model_ok, level, oracle=None, desc="", nontrivi
                 res["mismatch"].append({"input": c.id, "impl": "", "model": "missing", "case": c.to_text()})
             else:
                 d = t2.compare(c, a, b, level)
-                if d and (c.crash >= 0 or c.faults) and a.get("T") != b.get("T"):
-                    # crash points and fault occurrences count primitive calls; an optional
-                    # Chtimes (t2.norm_trace) or Rollback's map order makes the k-th call of
-                    # *this* run another call than the model's: judged by the oracle only
+                if d and (c.crash >= 0 or c.faults) and excusable(c, a, b):
+                    # crash points count primitive calls and fault occurrences count calls of one
+                    # kind: an optional Chtimes (t2.norm_trace) or the map order of Rollback's first
+                    # loop makes the k-th call of *this* run another call than the model's. Such a run
+                    # (and only such a run) is judged by the oracle alone.
                     res["unaligned_runs"] = res.get("unaligned_runs", 0) + 1
                     d = None
                 if d:
